@@ -401,4 +401,161 @@ Proof.
     replace f with (n + (f - n)) by lia. rewrite <- (app_nil_r (map hl0 x)) at 1.
     rewrite (Hn (f - n) [] []); [now rewrite app_nil_r|]. destruct (f - n) eqn:E; [lia|reflexivity].
 Qed.
+
+Definition sitem_out2 (d : nat) (i : sitem) : list htok :=
+  match i with
+  | SToks l => flat_map (ES stb (S d)) (map hl0 l)
+  | SCall t lp a more rp =>
+      match flookup fs (tt t) with
+      | Some (FFun n ps b) =>
+          flat_map (ES stb d)
+            (hset_w (tw t) (hsadd [tt t] (subst_out (gS (S d)) (combine ps (map (map hl0) (a :: map snd more))) (map btok_of b))))
+      | _ => []
+      end
+  end.
+
+Lemma arg2_hplain t : arg_tok2 fs t = true -> hplain (hl0 t) = true.
+Proof.
+  intros Ha. destruct (arg2_facts t Ha) as (_ & Hp & _). unfold plain_arg in Hp.
+  rewrite !andb_true_iff, !negb_true_iff in Hp. destruct Hp as [[H1 H2] H3].
+  unfold hplain, h_is. cbn [hl0 lift btok_of hk ht bk bt]. unfold is_txt in *. rewrite H1, H2, H3. now rewrite !andb_false_r.
+Qed.
+
+Lemma mem_app_r s a b : mem s b = true -> mem s (a ++ b) = true.
+Proof. intros H. apply mem_spec. apply in_or_app. right. now apply mem_spec. Qed.
+
+(* tokens of the substituted replacement list, after hsadd [name] *)
+Lemma call_all_ok d name w ps hargs b :
+  forallb (okf fs) b = true -> In name (snames stb) -> List.length (snames stb) <= S d ->
+  (forall a, In a hargs -> forall z, In z (gS (S d) a) ->
+             okh z = true /\ is_flh stb z = false /\ inertS z /\ String.eqb (ht z) "" = false) ->
+  all_ok stb d (hset_w w (hsadd [name] (subst_out (gS (S d)) (combine ps hargs) (map btok_of b)))).
+Proof.
+  intros Hb Hname Hlen Hargs.
+  assert (Hall : forall y, In y (hsadd [name] (subst_out (gS (S d)) (combine ps hargs) (map btok_of b))) ->
+                           okh y = true /\ is_flh stb y = false /\ (keepable stb y \/ invS stb (hh y) d)).
+  { intros y Hy. unfold hsadd in Hy. apply in_map_iff in Hy. destruct Hy as (z & <- & Hz).
+    clear w. induction b as [|t r IH]; cbn [map subst_out] in Hz; [contradiction|].
+    cbn [forallb] in Hb. apply andb_true_iff in Hb. destruct Hb as [Ht Hr].
+    destruct (Spec.C03.param (combine ps hargs) (btok_of t)) as [a|] eqn:Hp.
+    - apply in_app_or in Hz. destruct Hz as [Hz|Hz]; [|now apply IH].
+      unfold Spec.C03.param in Hp. destruct (tkind_eqb (bk (btok_of t)) KId); [|discriminate].
+      apply sel_combine_in in Hp.
+      assert (Hz' : exists z0, In z0 (gS (S d) a) /\ hk z = hk z0 /\ ht z = ht z0 /\ hh z = hh z0).
+      { destruct (gS (S d) a) as [|y0 r0]; cbn [hset_w] in Hz; [contradiction|].
+        destruct Hz as [<-|Hz]; [exists y0; cbn; auto|exists z; cbn; auto]. }
+      destruct Hz' as (z0 & Hz0 & E1 & E2 & E3). destruct (Hargs a Hp z0 Hz0) as (H1 & H2 & H3 & _).
+      cbn [hk ht hh]. split; [unfold okh in *; now rewrite E1, E2|]. split; [unfold is_flh in *; now rewrite E1, E2|].
+      left. unfold keepable. cbn [hk ht hh]. rewrite E1, E2, E3.
+      destruct (tkind_eqb (hk z0) KId) eqn:Hk; [|now left]. right. destruct (H3 Hk) as [Hm|Hn].
+      + left. now apply mem_app_r.
+      + right. rewrite slookup2, Hn. reflexivity.
+    - destruct Hz as [<-|Hz]; [|now apply IH]. cbn [lift hk ht hh].
+      unfold okf in Ht. rewrite andb_true_iff, negb_true_iff in Ht. destruct Ht as [Ho Hn].
+      split; [now apply okd_okh0|]. split.
+      { rewrite is_flh_funname. cbn [hk ht btok_of bk bt]. exact Hn. }
+      right. cbn [app]. repeat split; [constructor; [intros []|constructor]|intros x [<-|[]]; assumption|cbn [List.length]; lia]. }
+  intros x Hx. destruct (hsadd [name] (subst_out (gS (S d)) (combine ps hargs) (map btok_of b))) as [|y r] eqn:E; cbn [hset_w] in Hx; [contradiction|].
+  destruct Hx as [<-|Hx]; [|apply Hall; now right]. destruct (Hall y (or_introl eq_refl)) as (H1 & H2 & H3).
+  repeat split; try assumption.
+Qed.
+
+Lemma subst_out_no_pm2 g ap b :
+  (forall t, In t b -> String.eqb (bt t) "" = false) ->
+  (forall a, In a (map snd ap) -> forall x, In x (g a) -> String.eqb (ht x) "" = false) ->
+  filter (fun t => negb (is_pm t)) (subst_out g ap b) = subst_out g ap b.
+Proof.
+  intros Hb Ha. apply forallb_filter_id. rewrite forallb_forall. intros x Hx.
+  assert (Hne : String.eqb (ht x) "" = false).
+  { induction b as [|t r IH]; cbn [subst_out] in Hx; [contradiction|].
+    destruct (Spec.C03.param ap t) as [a|] eqn:Hp.
+    - apply in_app_or in Hx. destruct Hx as [Hx|Hx]; [|apply IH; [intros; apply Hb; now right|assumption]].
+      unfold Spec.C03.param in Hp. destruct (tkind_eqb (bk t) KId); [|discriminate].
+      assert (Hin : In a (map snd ap)).
+      { clear -Hp. induction ap as [|[k v] r IH]; cbn in *; [discriminate|]. destruct (String.eqb k (bt t)); [injection Hp as <-; now left|right; now apply IH]. }
+      destruct (g a) as [|y0 r0] eqn:Eg; cbn [hset_w] in Hx; [contradiction|]. destruct Hx as [<-|Hx].
+      + cbn [ht]. apply (Ha _ Hin). rewrite Eg. now left.
+      + apply (Ha _ Hin). rewrite Eg. now right.
+    - destruct Hx as [<-|Hx]; [cbn; apply Hb; now left|apply IH; [intros; apply Hb; now right|assumption]]. }
+  unfold is_pm. rewrite Hne. now rewrite andb_false_r.
+Qed.
+
+Lemma src_all_hs2 l : forallb (src_tok fs) l = true -> all_hs stb [] (map hl0 l).
+Proof. apply src_all_hs. Qed.
+
+Lemma S_item2 d i :
+  wf_src2 i -> List.length (snames stb) = S d ->
+  exists n m, forall f, m <= f -> forall ys r, expandS stb f ys = Ok r ->
+    expandS stb (n + f) (map hl0 (stoks i) ++ ys) = Ok (sitem_out2 d i ++ r).
+Proof.
+  intros [Hokd Hi] Hlen.
+  assert (Hfs : List.length fs = S d) by (unfold snames, stable2 in Hlen; now rewrite !map_length in Hlen).
+  destruct i as [l|t lp a more rp]; cbn [stoks sitem_out2].
+  - destruct (sscan_all stb (HSobj2 fs Hwf) (S d) (map hl0 l) [] (src_all_hs2 l Hi)) as (n & Hn).
+    { repeat split; [constructor|intros x []|cbn; lia]. }
+    exists n, 0. intros f _ ys r Hr. now apply Hn.
+  - destruct Hi as (Hid & Hdef & Hlp & Hrp & Ha & Hmore & n0 & ps & b & Hfl & Hlps).
+    rewrite Hfl.
+    destruct (fun_facts fs Hwf n0 ps b (flookup_In _ _ _ Hfl)) as (Hb & Hps & Hnd & Hva & Hno & Hpar & Hne).
+    assert (Hto : okd t = true) by (cbn [stoks forallb] in Hokd; apply andb_true_iff in Hokd; tauto).
+    set (al := a :: map snd more).
+    pose proof (args_of_call a more Ha Hmore) as Hargs. fold al in Hargs.
+    set (hargs := map (map hl0) al). set (ap := combine ps hargs). set (body := map btok_of b).
+    assert (Hlook : slookup stb (tt t) = Some (SFun ps false body)) by (rewrite slookup2, Hfl; reflexivity).
+    assert (Hargfacts : forall ha, In ha hargs -> forall z, In z (gS (S d) ha) ->
+                          okh z = true /\ is_flh stb z = false /\ inertS z /\ String.eqb (ht z) "" = false).
+    { intros ha Hha. unfold hargs in Hha. apply in_map_iff in Hha. destruct Hha as (x & <- & Hx).
+      apply arg_out_facts; [lia|]. rewrite Forall_forall in Hargs. now apply Hargs. }
+    destruct (gscan_all stb (HSobj2 fs Hwf) d (hset_w (tw t) (hsadd [tt t] (subst_out (gS (S d)) ap body)))) as (n1 & Hn1).
+    { apply call_all_ok; try assumption; [eapply slookup_In, Hlook|lia]. }
+    destruct (args_expand (S d) al) as (N & HN); [lia|assumption|].
+    exists (S n1), N. intros f Hf ys r Hr.
+    cbn [map]. rewrite !map_app, map_flat_more. cbn [map app plus].
+    replace ((map hl0 a ++ hflat_more (hmap_more more) ++ [hl0 rp]) ++ ys)
+      with (map hl0 a ++ hflat_more (hmap_more more) ++ hl0 rp :: ys) by (now rewrite <- !app_assoc).
+    rewrite (X_call stb (n1 + f) (hl0 t) (hl0 lp) (map hl0 a) (hmap_more more) (hl0 rp) ys ps body ap (subst_out (gS (S d)) ap body)).
+    + cbn [hl0 lift btok_of hw ht]. now apply Hn1.
+    + now apply okd_okh0.
+    + exact Hid.
+    + reflexivity.
+    + reflexivity.
+    + exact Hlook.
+    + exact Hlp.
+    + rewrite forallb_forall. intros x Hx. apply in_map_iff in Hx. destruct Hx as (z & <- & Hz).
+      apply arg2_hplain. rewrite forallb_forall in Ha. now apply Ha.
+    + unfold hmore_ok, hmap_more. rewrite Forall_forall in Hmore |- *. intros ca Hca. apply in_map_iff in Hca.
+      destruct Hca as (ca0 & <- & Hca0). cbn [fst snd]. destruct (Hmore ca0 Hca0) as [Hc Hal]. split; [exact Hc|].
+      rewrite forallb_forall. intros x Hx. apply in_map_iff in Hx. destruct Hx as (z & <- & Hz).
+      apply arg2_hplain. rewrite forallb_forall in Hal. now apply Hal.
+    + exact Hrp.
+    + unfold body. destruct b as [|t0 r0]; [reflexivity|]. cbn [map starts_with_cat].
+      cbn [forallb] in Hno. apply andb_true_iff in Hno. destruct Hno as [Ht0 _]. unfold no_ops in Ht0.
+      rewrite andb_true_iff, !negb_true_iff in Ht0. destruct Ht0 as [_ H2]. unfold b_is, is_txt in *. cbn [btok_of bt]. rewrite H2. apply andb_false_r.
+    + unfold bind_args. destruct ps as [|p0 ps']; [contradiction|].
+      rewrite map_snd_hmap. change (map hl0 a :: map (map hl0) (map snd more)) with hargs.
+      replace (Nat.eqb (List.length hargs) (List.length (p0 :: ps'))) with true; [reflexivity|].
+      symmetry. apply Nat.eqb_eq. unfold hargs, al. rewrite map_length. cbn [List.length]. rewrite map_length. exact (eq_sym Hlps).
+    + unfold subst_all. rewrite (subst_funlike (expandS stb (n1 + f)) (gS (S d)) ap body []).
+      * cbn [app]. rewrite subst_out_no_pm2; [reflexivity| |].
+        -- intros x Hx. unfold body in Hx. apply in_map_iff in Hx. destruct Hx as (z & <- & Hz). cbn [btok_of bt]. now apply Hne.
+        -- intros ha Hha x Hx. unfold ap in Hha. assert (Hin : In ha hargs) by (eapply In_snd_combine, Hha).
+           now destruct (Hargfacts ha Hin x Hx) as (_ & _ & _ & H4).
+      * unfold body. rewrite forallb_forall. intros x Hx. apply in_map_iff in Hx. destruct Hx as (z & <- & Hz).
+        rewrite forallb_forall in Hno. specialize (Hno z Hz). unfold no_ops, nohash, is_txt in *. cbn [btok_of bt]. exact Hno.
+      * intros t0 a0 Ht0 Hp. unfold Spec.C03.param in Hp. destruct (tkind_eqb (bk t0) KId); [|discriminate].
+        apply sel_combine_in in Hp. unfold hargs in Hp. apply in_map_iff in Hp. destruct Hp as (xa & <- & Hxa).
+        apply HN; [lia|assumption].
+Qed.
+
+Lemma S_src2 d items :
+  Forall wf_src2 items -> List.length (snames stb) = S d ->
+  exists n m, forall f, m <= f -> forall ys r, expandS stb f ys = Ok r ->
+    expandS stb (n + f) (map hl0 (flat_map stoks items) ++ ys) = Ok (flat_map (sitem_out2 d) items ++ r).
+Proof.
+  intros Hwfi Hlen. induction Hwfi as [|i items Hi Hitems IH].
+  - exists 0, 0. intros f _ ys r Hr. exact Hr.
+  - destruct IH as (n2 & m2 & H2). destruct (S_item2 d i Hi Hlen) as (n1 & m1 & H1).
+    exists (n1 + n2), (m1 + m2). intros f Hf ys r Hr. cbn [flat_map]. rewrite map_app, <- !app_assoc.
+    rewrite <- Nat.add_assoc. apply H1; [lia|]. apply H2; [lia|assumption].
+Qed.
 End FunLikeG.
